@@ -455,7 +455,7 @@ impl Session {
             if !seen_keys.insert(f.key.clone()) {
                 continue;
             }
-            if known.iter().any(|k| k.status == "finding" && k.key == f.key) {
+            if known.iter().any(|k| k.status == "finding" && key_matches(&k.key, &f.key)) {
                 known_lines.push(format!("KNOWN-FINDING: property={} {} — {}", prop, f.key, f.what));
             } else {
                 new_findings.push(f);
@@ -541,6 +541,17 @@ pub struct Known {
     pub property: String,
     pub status: String,
     pub key: String,
+}
+
+/// known-finding keys may start or end with `*` (suffix / prefix match), e.g. `*/ump/denom-differs-from-factory-min`
+pub fn key_matches(pattern: &str, key: &str) -> bool {
+    if let Some(suf) = pattern.strip_prefix('*') {
+        key.ends_with(suf)
+    } else if let Some(pre) = pattern.strip_suffix('*') {
+        key.starts_with(pre)
+    } else {
+        pattern == key
+    }
 }
 
 pub fn load_known(prop: &str) -> Vec<Known> {
